@@ -107,6 +107,39 @@ def install():
 
     bl.SymbolicBool.to_bytes = _bool_to_bytes
 
+    # ---------------------------------------------------------------- 8
+    # Fast paths: fully concrete arguments go to the real C functions (CrossHair's
+    # Python-level codec / struct models cost ~20 us per character even for concrete data).
+    import codecs as _codecs
+    _ch_encode = core._PATCH_REGISTRATIONS[_codecs.encode]
+    _ch_decode = core._PATCH_REGISTRATIONS[_codecs.decode]
+    _ch_pack = core._PATCH_REGISTRATIONS[struct.pack]
+
+    def _fast_encode(obj, encoding='utf-8', errors='strict'):
+        with NoTracing():
+            plain = type(obj) is str and type(encoding) is str and type(errors) is str
+            if plain:
+                return _codecs.encode(obj, encoding, errors)
+        return _ch_encode(obj, encoding, errors)
+
+    def _fast_decode(obj, encoding='utf-8', errors='strict'):
+        with NoTracing():
+            plain = type(obj) in (bytes, bytearray) and type(encoding) is str and type(errors) is str
+            if plain:
+                return _codecs.decode(obj, encoding, errors)
+        return _ch_decode(obj, encoding, errors)
+
+    def _fast_pack(fmt, *args):
+        with NoTracing():
+            plain = type(fmt) in (str, bytes) and all(type(a) in (int, float, bool, bytes) for a in args)
+            if plain:
+                return struct.pack(fmt, *args)
+        return _ch_pack(fmt, *args)
+
+    core._PATCH_REGISTRATIONS[_codecs.encode] = _fast_encode
+    core._PATCH_REGISTRATIONS[_codecs.decode] = _fast_decode
+    core._PATCH_REGISTRATIONS[struct.pack] = _fast_pack
+
     # ---------------------------------------------------------------- 7
     # Slicing a symbolic byte string (concrete length) with a symbolic bound: CrossHair
     # realises the bound value by value (2^32 paths for a lying length field). Clamp it
